@@ -210,6 +210,10 @@ def _ranges(V, prefix, n):
         e = V.int("%s%d_e" % (prefix, i))
         V.assume(s < e)
         out.append((s, e))
+    for accel in ("Ethos_U55_32", "Ethos_U55_64", "Ethos_U55_128", "Ethos_U55_256", "Ethos_U65_256", "Ethos_U65_512"):
+        for lut in (0, 1):
+            for kind in ("conv", "pool"):
+                out.append(dict(key="shram_writes/%s/%s/lut%d" % (accel, kind, lut), fn="shram_writes", params=dict(accel=accel, lut=lut, kind=kind)))
     return out
 
 
@@ -326,9 +330,48 @@ def blockdep(V, accel, prev_lut, cur_lut, same_fm):
             ("previous kernel reads SHRAM bytes the current kernel writes => BLOCKDEP == 0", z3.Implies(hazard, L(bd) == 0))]
 
 
+def shram_writes(V, accel, lut, kind):
+    """the SHRAM bytes a kernel is declared to write (what the DMA/kernel wait analysis sees) cover the shared-buffer area its block
+    configuration really uses: [0, LUT_START) of the layout get_arch_block_config computes for it; a table-lookup op is declared to read
+    the 2 KiB table just below the reserved banks.  Symbolic base addresses only shift external ranges; the SHRAM ranges must not depend on them."""
+    import ethosu.vela.register_command_stream_util as u
+    import ethosu.vela.register_command_stream_generator as g
+    import ethosu.vela.range_set as rs
+    from ethosu.vela import api as a
+    from ethosu.vela.range_set import AccessDirection as AD
+    from harness.c06 import _template
+
+    arch = arch_for(accel)
+    op = _template(accel, kind)
+    if lut:
+        op.activation = a.NpuActivation(a.NpuActivationOp.TABLE_LOOKUP)
+        op.activation.lookup_table_index = 0
+    base = V.int("ifm_base", 0, 1 << 20)
+    op.ifm.tiles = op.ifm.tiles._replace(addresses=[base, 0, 0, 0])
+    with core.shims((u, {"min": core.smin, "max": core.smax, "int": core.IntShim}), (rs, {"min": core.smin, "max": core.smax})):
+        acc = u.get_op_memory_accesses(op, arch)
+    cfg = g.get_arch_block_config(op, a.NpuBlockTraversal.DEPTH_FIRST, arch)
+    used_end = cfg.layout.lut_start * arch.shram_bank_size
+    shram = u.BASE_PTR_INDEX_MEM2MEM
+    wr = acc.accesses[AD.Write].regions.get(shram)
+    rd = acc.accesses[AD.Read].regions.get(shram)
+    covered = z3.BoolVal(False)
+    if wr is not None:
+        covered = z3.Or(*[z3.And(L(s_) <= 0, L(e_) >= used_end) for s_, e_ in wr.ranges])
+    cl = [("declared SHRAM writes cover the shared-buffer area the block configuration uses", covered)]
+    lut_addr = (arch.shram.total_banks - max(2, arch.shram.reserved_end_banks)) * arch.shram_bank_size if False else None
+    if lut:
+        want_s = arch.shram_lut_address
+        ok = rd is not None and any(z3.is_true(z3.simplify(z3.And(L(s_) <= want_s, L(e_) >= want_s + 2048))) for s_, e_ in rd.ranges)
+        cl.append(("a table-lookup kernel is declared to read its 2 KiB table", ok))
+    else:
+        cl.append(("no SHRAM read declared without a lookup table", rd is None or len(rd.ranges) == 0))
+    return cl
+
+
 # ---------------------------------------------------------------------------------------------- instances
 
-FUNCS = {"waits": waits, "wait_step": wait_step, "rangeset": rangeset, "access": access, "dma_access": dma_access, "blockdep": blockdep}
+FUNCS = {"waits": waits, "wait_step": wait_step, "rangeset": rangeset, "access": access, "dma_access": dma_access, "blockdep": blockdep, "shram_writes": shram_writes}
 
 
 def instances(tier, seed):
@@ -375,4 +418,8 @@ def instances(tier, seed):
                 for same in (0, 1):
                     out.append(dict(key="blockdep/%s/lut%d%d/%s" % (accel, prev_lut, cur_lut, "same_fm" if same else "free"), fn="blockdep",
                                     params=dict(accel=accel, prev_lut=prev_lut, cur_lut=cur_lut, same_fm=same), weight=20))
+    for accel in ("Ethos_U55_32", "Ethos_U55_64", "Ethos_U55_128", "Ethos_U55_256", "Ethos_U65_256", "Ethos_U65_512"):
+        for lut in (0, 1):
+            for kind in ("conv", "pool"):
+                out.append(dict(key="shram_writes/%s/%s/lut%d" % (accel, kind, lut), fn="shram_writes", params=dict(accel=accel, lut=lut, kind=kind)))
     return out
